@@ -311,6 +311,13 @@ func (C08) Gen(rng *core.Rng, tier string, idx int) *core.Scenario {
 			}
 			op = c08Op{Kind: "segname", What: "valid-combination", Expect: "any", Target: fmt.Sprintf("%s?nowMS=%d", c08Join(parts, ar.Asset+"/"+name), at)}
 		default: // uploads to the receiver with hostile bodies (engine S material)
+			if rng.Chance(0.35) {
+				// a valid CMAF track in which one box is missing: the init segment first, then a media segment
+				for _, o := range c08UploadDamaged(rng) {
+					sc.AddOp(o)
+				}
+				continue
+			}
 			op = c08Upload(rng)
 		}
 		sc.AddOp(op)
@@ -461,4 +468,86 @@ func (C08) Run(t *testing.T, sc *core.Scenario, res *core.Result) {
 		}
 	}
 	res.Nontrivial = res.Stats["probe.answered"] >= 2
+}
+
+// ---- structurally damaged CMAF uploads ------------------------------------------------------
+
+var c08Containers = map[string]bool{"moov": true, "trak": true, "mdia": true, "minf": true, "stbl": true, "mvex": true, "moof": true, "traf": true, "dinf": true, "edts": true}
+
+// c08DropBox removes the first box of the given type (searched depth-first through the plain container boxes, and the
+// sample entries of stsd) and corrects the sizes of its ancestors. ok=false when there is no such box.
+func c08DropBox(b []byte, typ string) (out []byte, ok bool) {
+	pos := 0
+	for pos+8 <= len(b) {
+		size := int(binary.BigEndian.Uint32(b[pos:]))
+		t := string(b[pos+4 : pos+8])
+		if size < 8 || pos+size > len(b) {
+			return b, false
+		}
+		if t == typ {
+			return append(append([]byte{}, b[:pos]...), b[pos+size:]...), true
+		}
+		hdr := 0
+		switch {
+		case c08Containers[t]:
+			hdr = 8
+		case t == "stsd":
+			hdr = 16 // full box header + entry count (left as it is: the count then promises an entry that is not there)
+		case t == "avc1" || t == "encv":
+			hdr = 8 + 78
+		}
+		if hdr > 0 && size >= hdr {
+			if inner, done := c08DropBox(b[pos+hdr:pos+size], typ); done {
+				nb := append([]byte{}, b[:pos+hdr]...)
+				nb = append(nb, inner...)
+				nb = append(nb, b[pos+size:]...)
+				binary.BigEndian.PutUint32(nb[pos:], uint32(hdr+len(inner)))
+				return nb, true
+			}
+		}
+		pos += size
+	}
+	return b, false
+}
+
+// c08UploadDamaged: init and first media segment of a small real track (receiver test vectors), one of them with a box removed.
+func c08UploadDamaged(rng *core.Rng) []c08Op {
+	type trk struct{ src, ext string }
+	tr := core.Pick(rng, []trk{{"text-nor-0", ".cmft"}, {"audio-nor-128Kbps", ".cmfa"}, {"video-500Kbps", ".cmfv"}})
+	initB := recvInitBody("zero", tr.src, false)
+	segB, _ := recvSegBody("zero", tr.src, 0, 0)
+	if tr.src == "video-500Kbps" {
+		segB = nil // init only: the video segments are large
+	}
+	initBoxes := []string{"mvex", "trex", "mvhd", "trak", "tkhd", "mdia", "mdhd", "hdlr", "minf", "stbl", "stsd", "avc1", "avcC", "stpp", "mp4a", "esds", "dinf", "ftyp"}
+	segBoxes := []string{"mfhd", "traf", "tfhd", "tfdt", "trun", "mdat", "styp", "moof"}
+	what := ""
+	damageInit := segB == nil || rng.Bool()
+	for try := 0; try < 20 && what == ""; try++ {
+		if damageInit {
+			bx := core.Pick(rng, initBoxes)
+			if nb, ok := c08DropBox(initB, bx); ok {
+				initB, what = nb, "init-without-"+bx
+			}
+		} else {
+			bx := core.Pick(rng, segBoxes)
+			if nb, ok := c08DropBox(segB, bx); ok {
+				segB, what = nb, "segment-without-"+bx
+			}
+		}
+	}
+	if what == "" {
+		what = "undamaged-track"
+	}
+	ch := fmt.Sprintf("dmg%d", rng.Intn(1_000_000))
+	ops := []c08Op{{Kind: "upload", Method: "PUT", Target: "/upload/" + ch + "/" + tr.src + "/init" + tr.ext, Body: initB, What: what, Expect: "any"}}
+	if segB != nil {
+		ops = append(ops, c08Op{Kind: "upload", Method: "PUT", Target: "/upload/" + ch + "/" + tr.src + "/0" + tr.ext, Body: segB, What: what, Expect: "any"})
+		if rng.Bool() { // a second segment: the channel goroutine works on what the first left behind
+			if s2, ok := recvSegBody("zero", tr.src, 0, 1); ok {
+				ops = append(ops, c08Op{Kind: "upload", Method: "PUT", Target: "/upload/" + ch + "/" + tr.src + "/1" + tr.ext, Body: s2, What: what, Expect: "any"})
+			}
+		}
+	}
+	return ops
 }
